@@ -31,7 +31,8 @@ class World:
                        "calculate_twice", "generator_changed_between_calculations", "calculated_with_pure_dephasing",
                        "jit_steps_with_pure_dephasing", "propagator_used_with_gaussian_dephasing_first",
                        "apply_with_pure_dephasing", "second_jit_object_created_after_steps_of_the_first",
-                       "two_jit_objects_stepped_alternately", "apply_to_real_typed_state", "apply_to_state_sharing_its_array"]
+                       "two_jit_objects_stepped_alternately", "apply_to_real_typed_state", "apply_to_state_sharing_its_array",
+                       "calculated_inside_context", "rwa_round_trip", "builder_propagator_with_secular_relaxation"]
     required_faults = ["mode_misuse", "refused_dense_setting"]
     components = {
         "real": ["EvolutionSuperOperator: set_dense_dt, calculate, calculate_next(save), at, apply (single time, time axis)",
@@ -57,7 +58,7 @@ class World:
 
     def gen(self, rng, tier):
         N = rng.choice([2, 2, 3, 3, 4])
-        kind = rng.choice(["lind_tensor", "lind_tensor", "lind_ops", "secular", "redfield"])
+        kind = rng.choice(["lind_tensor", "lind_tensor", "lind_ops", "secular", "redfield", "redfield_secular"])
         Nt = rng.choice([5, 8, 13, 20, 40])
         dt = rng.choice([1.0, 2.0, 5.0, 10.0])
         ops = []
@@ -65,7 +66,7 @@ class World:
         kinds = ["set_dense", "calculate", "next", "next", "next", "at", "apply", "apply", "misuse", "semigroup", "bad_dense"]
         # swarm member: Lorentzian pure dephasing added to (and removed from) the generator between calculations; the
         # PureDephasing object may start its life as a Gaussian one used by the directly propagating propagator
-        pdeph = kind != "redfield" and rng.random() < 0.35
+        pdeph = kind not in ("redfield", "redfield_secular") and rng.random() < 0.35
         gauss_first = pdeph and rng.random() < 0.5
         if pdeph:
             kinds = kinds + ["set_pdeph", "set_pdeph", "calculate", "apply"]
@@ -95,6 +96,10 @@ class World:
                             "copy": rng.random() < 0.5, "pay": rng.randrange(1 << 30), "ctx": rng.random() < 0.3,
                             "ctxkind": rng.choice(["ham", "ham", "complex"]), "first": rng.choice([0, 0, 1, 2]),
                             "target": rng.choice(["complex", "complex", "real", "shared"])})
+            elif k == "calculate":
+                ops.append({"op": "calculate", "ctx": rng.random() < 0.25})
+                if rng.random() < 0.3:
+                    ops.append({"op": "rwa_roundtrip"})
             else:
                 ops.append({"op": k})
         return {"N": N, "kind": kind, "Nt": Nt, "dt": dt, "seed": rng.randrange(1 << 30),
@@ -112,7 +117,7 @@ class World:
     def simplify(self, program):
         if program["Nt"] > 5:
             yield dict(program, Nt=5)
-        if program["N"] > 2 and program["kind"] != "redfield":
+        if program["N"] > 2 and program["kind"] not in ("redfield", "redfield_secular"):
             yield dict(program, N=2)
         if program["kind"] not in ("lind_tensor",):
             yield dict(program, kind="lind_tensor")
@@ -136,14 +141,22 @@ class Runner:
         g = numpy.random.Generator(numpy.random.PCG64(p["seed"]))
         self.time = qr.TimeAxis(0.0, p["Nt"], p["dt"])
         kind = p["kind"]
-        if kind == "redfield":
+        self.builder_prop = None
+        if kind in ("redfield", "redfield_secular"):
             from quantarhei.builders.aggregate_test import TestAggregate
             agg = TestAggregate(name="dimer-2-env" if p["N"] <= 3 else "trimer-2-env")
-            agg.set_coupling_by_dipole_dipole() if False else None
+            agg.set_coupling_by_dipole_dipole()        # without coupling the Redfield tensor is pure dephasing only
             agg.build()
             ham = agg.get_Hamiltonian()
             ta = agg.get_SystemBathInteraction().TimeAxis
-            RT, ham = agg.get_RelaxationTensor(ta, relaxation_theory="stR", time_dependent=False)
+            if kind == "redfield_secular":
+                # the same options through the two public entry points of the builder: tensor for the superoperator,
+                # propagator for the direct propagation
+                RT, ham = agg.get_RelaxationTensor(ta, relaxation_theory="stR", time_dependent=False, secular_relaxation=True)
+                self.builder_prop = lambda axis: agg.get_ReducedDensityMatrixPropagator(axis, relaxation_theory="stR", secular_relaxation=True)
+                self.ctx.probe("builder_propagator_with_secular_relaxation")
+            else:
+                RT, ham = agg.get_RelaxationTensor(ta, relaxation_theory="stR", time_dependent=False)
             self.ham, self.relt = ham, RT
             self.N = ham.dim
             self.ctx.probe("redfield_tensor_rwa") if ham.has_rwa else None
@@ -316,9 +329,35 @@ class Runner:
                     self.ctx.probe("generator_changed_between_calculations")
                 self.ctx.ev(i, kind, op["on"], op["which"])
                 self.ctx.cov(kind, op["on"], st["all_calc"], st["jit_now"] > 0)
+            elif kind == "rwa_roundtrip":
+                if not (st["all_calc"] and getattr(self.ham, "has_rwa", False)):
+                    continue
+                before = numpy.array(Uall.data).copy()
+                try:
+                    Uall.convert_from_RWA()
+                    mid = numpy.array(Uall.data).copy()
+                    Uall.convert_to_RWA(self.ham)
+                except Exception as e:
+                    raise Violation("rwa-conversion-raises", "op %d: %s: %s" % (i, type(e).__name__, e))
+                after = numpy.array(Uall.data)
+                check(close(after, before, rtol=0, atol=1e-12), "rwa-round-trip",
+                      lambda: "op %d: convert_from_RWA(); convert_to_RWA(H) does not give the superoperator back: %s" % (i, maxdiff(after, before)))
+                # in the standard frame the superoperator still composes and preserves the trace
+                trm = numpy.einsum("taacd->tcd", mid)
+                check(close(trm, numpy.broadcast_to(numpy.eye(self.N), trm.shape), rtol=0, atol=1e-10 * Nt), "trace-preserved",
+                      "op %d: trace after convert_from_RWA" % i)
+                self.ctx.probe("rwa_round_trip")
+                self.ctx.ev(i, kind, fingerprint(after))
             elif kind == "calculate":
                 try:
-                    Uall.calculate()
+                    if op.get("ctx") and not getattr(self.ham, "has_rwa", False) and not st["all_pd"]:
+                        # looked at and calculated inside the eigenbasis of the Hamiltonian, used outside afterwards
+                        with qr.eigenbasis_of(self.ham):
+                            numpy.array(Uall.data)
+                            Uall.calculate()
+                        self.ctx.probe("calculated_inside_context")
+                    else:
+                        Uall.calculate()
                 except Exception as e:
                     raise Violation("calculate-raises", "op %d: %s: %s" % (i, type(e).__name__, e))
                 if st["all_calc"]:
@@ -488,6 +527,8 @@ class Runner:
             qr = self.qr
             if with_pd:
                 self.props[True] = qr.ReducedDensityMatrixPropagator(self.time, self.ham, RTensor=self.relt, PDeph=self.pd)
+            elif self.builder_prop is not None:
+                self.props[False] = self.builder_prop(self.time)
             else:
                 self.props[False] = qr.ReducedDensityMatrixPropagator(self.time, self.ham, RTensor=self.relt)
         return self.props[with_pd]
